@@ -354,10 +354,109 @@ macro_rules! with_low {
     };
 }
 
+/// Which of the equivalent entry points a call goes through. The crate offers
+/// every search several times (fallible `try_*` and infallible wrappers;
+/// `Input` built with the builder-style methods or with the setters); the
+/// monitors' oracles do not care which one produced an answer, so the wrapper
+/// rotates through them, chosen by a function of the input (so that a replay
+/// of the same case takes the same route).
+///   0: `try_*` with the input as given
+///   1: `try_*` with the input rebuilt through `set_span/set_anchored/set_earliest`;
+///      low-level automata are used through the blanket `impl Automaton for &A`
+///   2: the infallible twin (top-level searcher, only where the configuration
+///      supports the call - otherwise 0), input rebuilt through
+///      `set_start/set_end`/`set_range`
+fn route(input: &Input<'_>) -> usize {
+    let sp = input.get_span();
+    (input.haystack().len().wrapping_mul(7) ^ sp.start.wrapping_mul(3) ^ sp.end.wrapping_mul(5) ^ (input.get_earliest() as usize)) % 3
+}
+
+fn via_setters<'h>(input: &Input<'h>, alt: bool) -> Input<'h> {
+    // (`Input::haystack` ties its result to the borrow, so start from a clone
+    // reset to what `Input::new` gives)
+    let mut i = input.clone();
+    let sp = input.get_span();
+    i.set_span(0..input.haystack().len());
+    i.set_anchored(Anchored::No);
+    i.set_earliest(false);
+    // the setters are independent of each other, so any order must do
+    let order: [u8; 3] = match sp.end % 3 {
+        0 => [0, 1, 2],
+        1 => [2, 1, 0],
+        _ => [1, 0, 2],
+    };
+    for what in order {
+        match what {
+            0 => {
+                if !alt {
+                    i.set_span(sp);
+                } else if sp.start % 2 == 0 {
+                    i.set_range(sp.start..sp.end);
+                } else {
+                    // start first: the span covers the whole haystack at this point, so start <= end + 1 holds throughout
+                    i.set_start(sp.start);
+                    i.set_end(sp.end);
+                }
+            }
+            1 => i.set_anchored(input.get_anchored()),
+            _ => i.set_earliest(input.get_earliest()),
+        }
+    }
+    i
+}
+
+fn supported(t: &AhoCorasick, input: &Input<'_>, overlapping: bool) -> bool {
+    let anchored = input.get_anchored().is_anchored();
+    let sk_ok = match t.start_kind() {
+        StartKind::Both => true,
+        StartKind::Unanchored => !anchored,
+        StartKind::Anchored => anchored,
+    };
+    sk_ok && (!overlapping || t.match_kind() == MatchKind::Standard)
+}
+
+/// Like `with_low!`, but the low-level automaton is used through a reference
+/// *type*: `$a` is bound to `&&T`, so method calls resolve to the crate's
+/// blanket `impl Automaton for &A` (what generic code taking `A: Automaton`
+/// by value gets when handed `&nfa`), whose provided methods run on top of
+/// the forwarding methods of that impl.
+#[macro_export]
+macro_rules! with_low_ref {
+    ($s:expr, $a:ident => $e:expr, top $t:ident => $te:expr) => {
+        match $s {
+            $crate::cfg::S::Top($t) => $te,
+            $crate::cfg::S::N(x) => {
+                let $a = &x;
+                $e
+            }
+            $crate::cfg::S::C(x) => {
+                let $a = &x;
+                $e
+            }
+            $crate::cfg::S::D(x) => {
+                let $a = &x;
+                $e
+            }
+        }
+    };
+}
+
 impl S {
     pub fn try_find(&self, input: Input<'_>) -> Result<Option<M>, MatchError> {
-        with_low!(self, a => a.try_find(&input).map(|o| o.map(mm)),
-                  top t => t.try_find(input).map(|o| o.map(mm)))
+        let r = route(&input);
+        match self {
+            S::Top(t) if r == 2 && supported(t, &input, false) => Ok(t.find(via_setters(&input, true)).map(mm)),
+            _ => {
+                let input = if r == 0 { input } else { via_setters(&input, r == 2) };
+                if r == 1 {
+                    with_low_ref!(self, a => a.try_find(&input).map(|o| o.map(mm)),
+                              top t => t.try_find(input).map(|o| o.map(mm)))
+                } else {
+                    with_low!(self, a => a.try_find(&input).map(|o| o.map(mm)),
+                              top t => t.try_find(input).map(|o| o.map(mm)))
+                }
+            }
+        }
     }
 
     pub fn try_find_iter(
@@ -367,9 +466,24 @@ impl S {
         // The iterator is bounded: at most len+2 items can ever be legal
         // (every match either consumes a byte or is empty at a new offset).
         let cap = input.haystack().len() + 3;
-        with_low!(self,
-            a => a.try_find_iter(input).map(|it| it.take(cap).map(mm).collect()),
-            top t => t.try_find_iter(input).map(|it| it.take(cap).map(mm).collect()))
+        let r = route(&input);
+        match self {
+            S::Top(t) if r == 2 && supported(t, &input, false) => {
+                Ok(t.find_iter(via_setters(&input, true)).take(cap).map(mm).collect())
+            }
+            _ => {
+                let input = if r == 0 { input } else { via_setters(&input, r == 2) };
+                if r == 1 {
+                    with_low_ref!(self,
+                        a => a.try_find_iter(input).map(|it| it.take(cap).map(mm).collect()),
+                        top t => t.try_find_iter(input).map(|it| it.take(cap).map(mm).collect()))
+                } else {
+                    with_low!(self,
+                        a => a.try_find_iter(input).map(|it| it.take(cap).map(mm).collect()),
+                        top t => t.try_find_iter(input).map(|it| it.take(cap).map(mm).collect()))
+                }
+            }
+        }
     }
 
     pub fn try_find_overlapping(
@@ -377,8 +491,23 @@ impl S {
         input: Input<'_>,
         state: &mut OverlappingState,
     ) -> Result<(), MatchError> {
-        with_low!(self, a => a.try_find_overlapping(&input, state),
-                  top t => t.try_find_overlapping(input, state))
+        let r = route(&input);
+        match self {
+            S::Top(t) if r == 2 && supported(t, &input, true) => {
+                t.find_overlapping(via_setters(&input, true), state);
+                Ok(())
+            }
+            _ => {
+                let input = if r == 0 { input } else { via_setters(&input, r == 2) };
+                if r == 1 {
+                    with_low_ref!(self, a => a.try_find_overlapping(&input, state),
+                              top t => t.try_find_overlapping(input, state))
+                } else {
+                    with_low!(self, a => a.try_find_overlapping(&input, state),
+                              top t => t.try_find_overlapping(input, state))
+                }
+            }
+        }
     }
 
     pub fn try_find_overlapping_iter(
@@ -386,9 +515,24 @@ impl S {
         input: Input<'_>,
         cap: usize,
     ) -> Result<Vec<M>, MatchError> {
-        with_low!(self,
-            a => a.try_find_overlapping_iter(input).map(|it| it.take(cap).map(mm).collect()),
-            top t => t.try_find_overlapping_iter(input).map(|it| it.take(cap).map(mm).collect()))
+        let r = route(&input);
+        match self {
+            S::Top(t) if r == 2 && supported(t, &input, true) => {
+                Ok(t.find_overlapping_iter(via_setters(&input, true)).take(cap).map(mm).collect())
+            }
+            _ => {
+                let input = if r == 0 { input } else { via_setters(&input, r == 2) };
+                if r == 1 {
+                    with_low_ref!(self,
+                        a => a.try_find_overlapping_iter(input).map(|it| it.take(cap).map(mm).collect()),
+                        top t => t.try_find_overlapping_iter(input).map(|it| it.take(cap).map(mm).collect()))
+                } else {
+                    with_low!(self,
+                        a => a.try_find_overlapping_iter(input).map(|it| it.take(cap).map(mm).collect()),
+                        top t => t.try_find_overlapping_iter(input).map(|it| it.take(cap).map(mm).collect()))
+                }
+            }
+        }
     }
 
     pub fn patterns_len(&self) -> usize {
